@@ -14,11 +14,18 @@ that follows a spanning block in the same container fragment was laid out with `
 lines fit, the first one included (the class of the seeded change C03-2: `columns_layout` no longer clearing
 `page_is_empty` after a spanning block).
 
+`paginate_after_span_fits` lifts it to every page of a paginated document (`strictLines`: the whole fragment tree,
+`Lemmas/ColGeoPage.lean`), and `afterSpan_not_exempt` shows that the collected lines really carry no exemption
+(unless a container is nested inside the column).  Together they are the theorem form of the geometry oracle
+`pm_col_corr.geometry_violation` ("a line below the page bottom is first on its page, or first in a column of a
+group before which nothing was placed").
+
 `lh` maps a paragraph id to its line height (paragraph fragments do not record it); `LhOk lh box` says it agrees
 with the source — any document with distinct paragraph ids has such an `lh`.
 -/
 import WpModel.Lemmas.ColGeo
 import WpModel.Lemmas.ColGeoStrict
+import WpModel.Lemmas.ColGeoPage
 
 namespace Wp.C03GeoCol
 open Wp Wp.PM Wp.PMC
@@ -249,5 +256,133 @@ example : (match paginateCol exSpan 30 with
         ((p.root.kids.flatMap CFrag.kids).flatMap fun (f : CFrag) => PMC.afterSpan (fun _ => 10) f.kids false).map
           fun (l : PlacedLine) => (l.para, l.line, l.y + l.lineH, l.exempt))
     | _ => []) = [[], [(3, 0, 40, false), (3, 1, 40, false)], []] := by decide +kernel
+
+/-! ### page level: no exemption for the columns that follow a spanning block -/
+
+/-- **Columns after a spanning block fit entirely, whole layout**: `strictLines` collects, over the whole
+fragment tree returned by a `block_level_layout` call, the lines of the column boxes that follow a spanning block
+in their container; none of them is marked exempt by its column, and all end above `pageBottom − bs`. -/
+theorem layout_after_span_fits (lh : Nat → Rat) (box : ColBox) (hd : PMC.DecoOk box) (hl : LhOk lh box) (c : CCtx)
+    (idx : Nat) (y bs : Rat) (skip : Option Resume) (cb pie : Bool) (adjL : List Rat) (f : CFrag)
+    (hf : (PMC.layoutBox c box idx y bs skip cb pie adjL).frag = some f) :
+    ∀ l ∈ PMC.strictLines lh f, l.exempt = true ∨ c.overflowsPage bs (l.y + l.lineH) = false :=
+  PMC.box_page lh box hd hl c idx y bs skip cb pie adjL f hf
+
+/-- One page (`remake_page`). -/
+theorem remakePage_after_span_fits (lh : Nat → Rat) (d : CDoc) (hd : PMC.DecoOk d.root) (hl : LhOk lh d.root)
+    (index : Nat) (resume : Option Resume) (np : NextPage) (right : Bool) (p : CPage)
+    (hp : PMC.remakePage d index resume np right = .ok p) :
+    ∀ l ∈ PMC.strictLines lh p.root, l.exempt = true ∨ l.y + l.lineH ≤ d.pageH * (1 + 1 / 1000000000) := by
+  unfold PMC.remakePage at hp
+  dsimp only at hp
+  split at hp
+  · cases hp
+  · split at hp
+    · cases hp
+    · rename_i f hfrag
+      simp only [PageOut.ok.injEq] at hp
+      subst hp
+      intro l hlmem
+      have hbox : PMC.DecoOk (if isBlank (requestedSide d.rootLtr np.brk) right = true then PMC.emptyRoot d.root
+          else d.root) ∧ LhOk lh (if isBlank (requestedSide d.rootLtr np.brk) right = true then PMC.emptyRoot d.root
+          else d.root) := by
+        split
+        · exact ⟨decoOk_emptyRoot _ hd, lhOk_emptyRoot lh _ hl⟩
+        · exact ⟨hd, hl⟩
+      rcases layout_after_span_fits lh _ hbox.1 hbox.2 _ 0 0 0 resume false true [] f hfrag l hlmem with h | h
+      · left; exact h
+      · right
+        simp only [CCtx.overflowsPage, overflows, Bool.false_or, decide_eq_false_iff_not] at h
+        grind
+
+/-- **All pages of a paginated document**: on every page, every line of every column box that follows a spanning
+block in its container ends above the page bottom (with the layout's fudge factor) — the first line of such a
+column is NOT exempt (`paginate_line_fits` exempts the first line of every column box; here `exempt` can only come
+from a container nested inside such a column). -/
+theorem paginate_after_span_fits (lh : Nat → Rat) (d : CDoc) (hd : PMC.DecoOk d.root) (hl : LhOk lh d.root)
+    (fuel : Nat) (pages : List CPage) (h : paginateCol d fuel = .ok pages) :
+    ∀ p ∈ pages, ∀ l ∈ PMC.strictLines lh p.root,
+      l.exempt = true ∨ l.y + l.lineH ≤ d.pageH * (1 + 1 / 1000000000) := by
+  have key : ∀ (fuel index : Nat) (resume : Option Resume) (np : NextPage) (right : Bool) (pages : List CPage),
+      PMC.makeAllPages d fuel index resume np right = .ok pages →
+      ∀ p ∈ pages, ∀ l ∈ PMC.strictLines lh p.root,
+        l.exempt = true ∨ l.y + l.lineH ≤ d.pageH * (1 + 1 / 1000000000) := by
+    intro fuel
+    induction fuel with
+    | zero => intro index resume np right pages h; simp [PMC.makeAllPages] at h
+    | succ fuel ih =>
+      intro index resume np right pages h
+      simp only [PMC.makeAllPages] at h
+      split at h
+      · cases h
+      · cases h
+      · rename_i p hp
+        have hpage := remakePage_after_span_fits lh d hd hl index resume np right p hp
+        split at h
+        · simp only [PagesOut.ok.injEq] at h
+          subst h
+          intro q hq
+          simp only [List.mem_singleton] at hq
+          subst hq
+          exact hpage
+        · split at h
+          · rename_i ps hps
+            simp only [PagesOut.ok.injEq] at h
+            subst h
+            intro q hq
+            rcases List.mem_cons.mp hq with rfl | hq
+            · exact hpage
+            · exact ih _ _ _ _ ps hps q hq
+          · rename_i hne
+            exact absurd h (hne pages)
+  exact key fuel 0 none _ _ pages h
+
+/-- Column boxes nested inside the children of the given fragments (containers inside columns). -/
+def nestedColumns : List CFrag → Nat
+  | [] => 0
+  | f :: rest => columnCountList f.kids + nestedColumns rest
+
+/-- **The lines `afterSpan` collects are not exempt**: an exemption can only come from a column box of a container
+nested inside the column (at most one line per such nested column box); for a container whose columns hold only
+paragraphs and blocks none of the collected lines is exempt. -/
+theorem afterSpan_exemptCount (lh : Nat → Rat) : (l : List CFrag) → ∀ (seen : Bool),
+    exemptCount (PMC.afterSpan lh l seen) ≤ nestedColumns l
+  | [] => by intro seen; simp [PMC.afterSpan, exemptCount, nestedColumns]
+  | f :: rest => by
+    intro seen
+    simp only [PMC.afterSpan, nestedColumns, exemptCount_append]
+    have h1 := placedList_exemptCount lh f.kids false
+    simp only [Bool.false_eq_true, if_false, Nat.add_zero] at h1
+    have h2 := afterSpan_exemptCount lh rest (seen || !f.isColumn)
+    split
+    · omega
+    · simp only [exemptCount, List.filter_nil, List.length_nil] at *
+      omega
+
+theorem afterSpan_not_exempt (lh : Nat → Rat) (l : List CFrag) (seen : Bool) (h : nestedColumns l = 0) :
+    ∀ p ∈ PMC.afterSpan lh l seen, p.exempt = false := by
+  have hc := afterSpan_exemptCount lh l seen
+  rw [h] at hc
+  intro p hp
+  cases he : p.exempt with
+  | false => rfl
+  | true =>
+    have : p ∈ (PMC.afterSpan lh l seen).filter (·.exempt) := List.mem_filter.mpr ⟨hp, he⟩
+    have hl : 0 < ((PMC.afterSpan lh l seen).filter (·.exempt)).length := List.length_pos_of_mem this
+    simp only [exemptCount] at hc
+    omega
+
+/-- Without nested containers nothing is exempt: the lines of a column that follows a spanning block and holds only
+paragraphs and blocks are all checked. -/
+example : (match paginateCol exSpan 30 with
+    | .ok ps => ps.map (fun (p : CPage) =>
+        (PMC.strictLines (fun _ => 10) p.root).map fun (l : PlacedLine) => (l.para, l.line, l.y + l.lineH, l.exempt))
+    | _ => []) = [[], [(3, 0, 40, false), (3, 1, 40, false)], []] := by decide +kernel
+
+example : PMC.DecoOk exSpan.root ∧ LhOk (fun _ => 10) exSpan.root := by
+  constructor
+  · simp only [exSpan, exSt, PMC.DecoOk, PMC.DecoOkList, PStyle.DecoOk]
+    decide +kernel
+  · simp [exSpan, LhOk, LhOkList]
 
 end Wp.C03GeoCol
